@@ -472,6 +472,36 @@ func join(prefix []string, path []string) string {
 	return strings.Join(append(append([]string{}, prefix...), path...), ".")
 }
 
+// dropEmbedded removes the components of path that name embedded (anonymous) fields, so that
+// field paths do not depend on how message structs are composed.
+func (p *pkgInfo) dropEmbedded(typ string, path []string) []string {
+	var out []string
+	cur := typ
+	for _, c := range path {
+		st := p.structs[cur]
+		anon := false
+		next := ""
+		if st != nil {
+			for _, f := range st.Fields.List {
+				if len(f.Names) == 0 && strings.TrimPrefix(src(f.Type), "*") == c {
+					anon = true
+					next = strings.TrimPrefix(src(f.Type), "*")
+				}
+				for _, n := range f.Names {
+					if n.Name == c {
+						next = strings.TrimPrefix(src(f.Type), "*")
+					}
+				}
+			}
+		}
+		if !anon {
+			out = append(out, c)
+		}
+		cur = next
+	}
+	return out
+}
+
 // layoutOf extracts the encode or decode layout of struct type typ.
 func (p *pkgInfo) layoutOf(typ, dir string, prefix []string, l *layout) {
 	if p.isBoolStruct(typ) {
@@ -496,7 +526,7 @@ func (p *pkgInfo) layoutOf(typ, dir string, prefix []string, l *layout) {
 				if len(f.Names) == 0 {
 					et := strings.TrimPrefix(src(f.Type), "*")
 					if p.methods[et+"."+dir] != nil || p.hasPromoted(et, dir) {
-						p.layoutOf(et, dir, append(prefix, et), l)
+						p.layoutOf(et, dir, prefix, l)
 						return
 					}
 				}
@@ -622,7 +652,7 @@ func (p *pkgInfo) encStmt(typ, recv string, stmts []ast.Stmt, i int, prefix []st
 		if pa, ok := pathOf(sel.X, recv); ok && len(pa) > 0 {
 			ft := strings.TrimPrefix(p.fieldType(typ, pa), "*")
 			if ft != "" {
-				p.layoutOf(ft, "encode", append(append([]string{}, prefix...), pa...), l)
+				p.layoutOf(ft, "encode", append(append([]string{}, prefix...), p.dropEmbedded(typ, pa)...), l)
 				return i
 			}
 		}
@@ -641,7 +671,7 @@ func (p *pkgInfo) decStmt(typ, recv string, stmts []ast.Stmt, i int, prefix []st
 				if pa, ok := pathOf(sel.X, recv); ok && len(pa) > 0 {
 					ft := strings.TrimPrefix(p.fieldType(typ, pa), "*")
 					if ft != "" {
-						p.layoutOf(ft, "decode", append(append([]string{}, prefix...), pa...), l)
+						p.layoutOf(ft, "decode", append(append([]string{}, prefix...), p.dropEmbedded(typ, pa)...), l)
 						return i
 					}
 				}
